@@ -190,8 +190,11 @@ theorem specBody_root {R : NodeId → NodeId → Prop} {e₁ e₂ : Spec.Env} (h
   have href : n₁.ref = n₂.ref := scal_ref hn.scal
   have hdr' : n₁.dynamicRef = n₂.dynamicRef := scal_dynamicRef hn.scal
   have hkref := kwRef_iso hsub (e₁ := e₁) (e₂ := e₂) (s₁ := s₁) (s₂ := s₂) href (fun h => absurd hr h) j
+  have hdrv : (Spec.vocab e₁.draft n₁).dynamicRef = (Spec.vocab e₂.draft n₂).dynamicRef := by
+    rw [hd]; simp only [Spec.vocab, hdr']
   have hkdyn := kwDynamicRef_iso hsub (e₁ := e₁) (e₂ := e₂) (sc₁ := sc₁ ++ [s₁]) (sc₂ := sc₂ ++ [s₂]) (s₁ := s₁)
-    (s₂ := s₂) hdr' (fun h => absurd hdr h) j
+    (s₂ := s₂) (n₁ := Spec.vocab e₁.draft n₁) (n₂ := Spec.vocab e₂.draft n₂) hdrv
+    (fun h => absurd (by cases e₁.draft <;> simp [Spec.vocab, hdr]) h) j
   have hkl : Inv.kwList e₁ rec₁ sc₁ s₁ j n₁ = Inv.kwList e₂ rec₂ sc₂ s₂ j n₂ := by
     unfold Inv.kwList
     rw [hkref, hkdyn, kwAllOf_iso hsub hn.allOf j, kwAnyOf_iso hsub hn.anyOf j, kwOneOf_iso hsub hn.oneOf j,
